@@ -7,8 +7,7 @@ META = {
               "(every CON/NON pattern) for every nstart/con_active; completion events: empty ACK/RST through coap_dispatch with the "
               "queue holding the matching request, a request with another mid, or none (con_active bookkeeping); give-up in "
               "coap_retransmit (C06-S2).",
-    "outside": "bursts beyond 3 held messages other than by induction over the drain loop; session failure path "
-               "(coap_session_disconnected_lkd NACKs) is not encoded in this version; several sessions per context only through "
+    "outside": "bursts beyond 3 held messages other than by induction over the drain loop; several sessions per context only through "
                "'other node untouched' obligations",
     "assumptions": ["l_write/handlers/clock stubs; representation invariant: messages are held only while the session is down or con_active == nstart"],
 }
@@ -38,6 +37,11 @@ def jobs():
                           timeout=900, est_gb=3,
                           desc="empty %s through coap_dispatch, queue: %s: NSTART slot freed exactly when a Confirmable in flight completes" % (tn.upper(), NODES[node]),
                           bounds={"type": tn, "queue": NODES[node]}))
+    for nheld in (0, 1, 2, 3):
+        js.append(Job("S4-session-failure@held%d" % nheld, "C07/c07.c", "c08_s4_session_failure", UNITS, extra_src=EXTRA,
+                      defines=["NHELD=%d" % nheld, "INFLIGHT=0", "FPROTO=1"] + CUT_CLIENT, remove_bodies=RB_CLIENT, unwind=18, flags=FS, group="S4-session-failure",
+                      timeout=1500, est_gb=3, tier="quick" if nheld <= 2 else "thorough",
+                      desc="session failure with %d held message(s): one NACK per held Confirmable, nothing sent" % nheld, bounds={"held": nheld}))
     # retransmission and give-up keep the NSTART bookkeeping exact (same harness as C06-S2: con_active unchanged by a
     # retransmission, one slot freed by a give-up)
     import copy
